@@ -16,7 +16,8 @@ TraceNext ==
        /\ permdiff' = IF Permitted(e.cs) /\ ~e.same THEN permdiff \cup {[site |-> e.cs.site, form |-> e.cs.form]} ELSE permdiff
     /\ UNCHANGED cs
 
-TraceInit == Init /\ l = 1 /\ bad = {} /\ vacuous = {} /\ permseen = {} /\ permdiff = {}
+(* cs plays no part in the judgement: one fixed value, not one validation per case *)
+TraceInit == cs = (CHOOSE c \in Cases : TRUE) /\ l = 1 /\ bad = {} /\ vacuous = {} /\ permseen = {} /\ permdiff = {}
 TraceSpec == TraceInit /\ [][TraceNext]_<<cs, l, bad, vacuous, permseen, permdiff>>
 Result == l = Len(Trace) + 1 => PrintT(<<"RESULT", ToJson([n |-> l - 1, bad |-> bad, vacuous |-> vacuous, dead |-> permseen \ permdiff])>>)
 =============================================================================
